@@ -573,6 +573,9 @@ func (m *Machine) intrinsic(name string, fn *ssa.Function, args []Value) (Value,
 			return strLit(""), true
 		}
 		return String{h: b.st.snapshot(), off: b.off, len: b.len, maxLen: b.maxLen}, true
+	case "os.runtime_args": // os.Args: the program name only
+		arr := []Value{strLit("prog")}
+		return Slice{arr: &arr, off: 0, len: 1, cap: 1, et: types.Typ[types.String]}, true
 	case "internal/abi.NoEscape", "strings.noescape", "runtime.noescape":
 		return args[0], true
 	case "errors.Is":
